@@ -78,7 +78,7 @@ struct Cfg {
     int tls = 2;          // 0 TLSDisabled, 1 TLSEnabled, 2 TLSRequired
     bool sasl2 = true, sasl = true, nonsasl = true;
     bool plainOk = false; // PLAIN removed from the disabled list
-    bool token = false;   // FAST: user agent + HT token present
+    int token = 0;        // FAST: 0 nothing, 1 user agent + HT token, 2 user agent only
     bool nsPlain = false; // XEP-0078 preference plain instead of digest
     bool inactive = false; // client state indication: inactive before connecting
     std::string str() const
@@ -106,8 +106,8 @@ static QXmppConfiguration makeConfig(const Cfg &c, quint16 port)
     cfg.setUseNonSASLAuthentication(c.nonsasl);
     cfg.setNonSASLAuthMechanism(c.nsPlain ? QXmppConfiguration::NonSASLPlain : QXmppConfiguration::NonSASLDigest);
     if (c.plainOk) cfg.setDisabledSaslMechanisms({});
-    if (c.token) {
-        cfg.setSasl2UserAgent(QXmppSasl2UserAgent(QUuid("11111111-2222-3333-4444-555555555555"), "verif", "harness"));
+    if (c.token >= 1) cfg.setSasl2UserAgent(QXmppSasl2UserAgent(QUuid("11111111-2222-3333-4444-555555555555"), "verif", "harness"));
+    if (c.token == 1) {
         QByteArray xml = "<credentials xmlns=\"org.qxmpp.credentials\"><ht-token mechanism=\"HT-SHA-256-NONE\" secret=\"" + TOKEN.toUtf8() +
             "\" expiry=\"2099-01-01T00:00:00Z\"/></credentials>";
         QXmlStreamReader r(xml);
@@ -455,7 +455,7 @@ struct World {
         std::string s = st == QXmppClient::ConnectedState ? "connected" : st == QXmppClient::ConnectingState ? "connecting" : "disconnected";
         char b[96];
         snprintf(b, sizeof b, "st=%s ic=%d au=%d enc=%d", s.c_str(), client->isConnected() ? 1 : 0, client->isAuthenticated() ? 1 : 0,
-                 client->strm()->socket()->isEncrypted() ? 1 : 0);
+                 (client->strm()->socket()->isEncrypted() && client->strm()->socket()->state() == QAbstractSocket::ConnectedState) ? 1 : 0);
         return b;
     }
 
@@ -672,6 +672,449 @@ static int runManual(const std::string &cfgStr, const std::string &script)
     return 0;
 }
 
+// ------------------------------------------------------------------------------------------------ exploration
+static long long g_scripts = 0, g_ops = 0;
+static std::map<std::string, int> g_failPrinted;
+static void fail(const std::string &key, const std::string &replay)
+{
+    stat("fail:" + key);
+    if (g_failPrinted[key]++ < 3) oracleFail(key, replay);
+}
+
+struct Session {
+    Runner &r;
+    Cfg cfg;
+    std::vector<std::string> ops;      // since reset
+    std::string replay() const
+    {
+        std::string s = "cfg{" + cfg.str() + "} script{";
+        for (size_t i = 0; i < ops.size(); i++) s += (i ? ";" : "") + ops[i];
+        return s + "}";
+    }
+    Session(Runner &r, const Cfg &c) : r(r), cfg(c)
+    {
+        r.w.newClient(c);
+        corr("reset " + c.str(), "ok");
+        g_scripts++;
+    }
+    std::string op(const std::string &o)
+    {
+        ops.push_back(o);
+        printf("I %s\n", replay().c_str());
+        fflush(stdout);
+        std::string obs = r.apply(o);
+        corr(o, obs);
+        g_ops++;
+        stat("op:" + o.substr(0, o.find(' ')));
+        return obs;
+    }
+};
+
+// ---- C04 oracle: what crossed the wire in clear (seen by the SERVER before its TLS handshake completed)
+static const char *ALLOWED_CLEAR[] = { "StreamOpen", "StartTls", "StreamClose" };
+
+// split the plaintext the server read into elements; binary TLS records (a handshake the server did not answer) are skipped
+static std::vector<QString> splitPlain(const QByteArray &plain)
+{
+    std::vector<QString> out;
+    int i = 0;
+    const int n = plain.size();
+    while (i < n) {
+        if (uchar(plain[i]) == 0x16 && i + 5 <= n && uchar(plain[i + 1]) == 0x03) break;   // TLS ClientHello: the rest is handshake data
+        if (plain[i] != '<') { i++; continue; }
+        if (plain.mid(i, 5) == "<?xml") {
+            int e = plain.indexOf("<stream:stream", i);
+            int g = e >= 0 ? plain.indexOf('>', e) : -1;
+            if (g < 0) { out.push_back(QString::fromUtf8(plain.mid(i))); break; }
+            out.push_back(QString::fromUtf8(plain.mid(i, g + 1 - i)));
+            i = g + 1;
+            continue;
+        }
+        if (plain.mid(i, 16) == "</stream:stream>") { out.push_back("</stream:stream>"); i += 16; continue; }
+        // a complete top-level element: find its end by depth counting
+        int depth = 0, j = i;
+        bool done = false;
+        while (j < n && !done) {
+            int lt = plain.indexOf('<', j);
+            if (lt < 0) break;
+            int gt = plain.indexOf('>', lt);
+            if (gt < 0) break;
+            bool closing = plain[lt + 1] == '/';
+            bool selfClosing = plain[gt - 1] == '/';
+            if (closing) depth--;
+            else if (!selfClosing) depth++;
+            j = gt + 1;
+            if (depth == 0) done = true;
+        }
+        if (!done) { out.push_back(QString::fromUtf8(plain.mid(i))); break; }
+        out.push_back(QString::fromUtf8(plain.mid(i, j - i)));
+        i = j;
+    }
+    return out;
+}
+
+static void oracleC04(Session &s)
+{
+    World &w = s.r.w;
+    if (s.cfg.tls != 2) return;
+    std::set<std::string> reported;
+    std::vector<std::string> serverView;
+    for (Server *srv : { &w.srvA, &w.srvB })
+        for (auto &c : srv->conns) {
+            for (const QString &el : splitPlain(c->plain)) {
+                std::string k = classify(el);
+                serverView.push_back(k);
+                bool ok = false;
+                for (auto a : ALLOWED_CLEAR) ok |= (k == a);
+                if (!ok && !reported.count(k)) { reported.insert(k); fail("C04:cleartext:" + k, s.replay()); }
+            }
+            std::string sec = secrets().find(c->plain);
+            if (!sec.empty() && !reported.count("secret:" + sec)) { reported.insert("secret:" + sec); fail("C04:secret-in-cleartext:" + sec, s.replay()); }
+        }
+    // cross-check of the two observation points: client-side log + isEncrypted() versus bytes on the server side
+    std::vector<std::string> clientView;
+    for (auto &r : w.sent) if (r.conn && !r.enc) clientView.push_back(r.kind);
+    std::multiset<std::string> a(serverView.begin(), serverView.end()), b(clientView.begin(), clientView.end());
+    if (a != b) fail("C04:oracle-views-differ", s.replay());
+    if (reported.empty()) oraclePass()++;
+}
+
+// ---- a protocol-conforming server: what to say next, from the client's last request
+struct Policy {
+    std::string name;
+    bool tls = false;
+    char auth = 'p';        // p: SASL PLAIN, s: SASL SCRAM, 2: SASL2 PLAIN + bind2 (sm/csi inline), b: SASL2 PLAIN then classic bind, l: legacy XEP-0078
+    int sm = 0;             // 0 none, 1 offered, <enabled/> without resume, 2 offered, resumable
+    bool resumeOk = true;   // answer <resume/> with <resumed/> (else <failed/>)
+    bool csi = false;
+    int redirectAt = -1;    // send see-other-host as the k-th server element of the connection (0 = right after the header)
+};
+
+struct Conforming {
+    Policy p;
+    bool tlsDone = false, authed = false, needFeatures = false, done = false, resumableNow = false, bind2Now = false;
+    int said = 0;
+    bool redirected = false;
+    // returns "" when the server has nothing more to say (negotiation finished from the server's point of view)
+    std::string next(const std::string &lastKind, bool newStream)
+    {
+        if (p.redirectAt >= 0 && !redirected && said == p.redirectAt + 1) { redirected = true; return "redirect"; }
+        if (newStream) { needFeatures = true; return p.auth == 'l' ? "hdr 0 1" : "hdr 1 1"; }
+        if (needFeatures) {
+            needFeatures = false;
+            if (p.auth == 'l' && !authed) return "";   // the client asks for the fields by itself
+            if (p.tls && !tlsDone) return "feat t1";
+            if (!authed) {
+                if (p.auth == 'p') return "feat mp";
+                if (p.auth == 's') return "feat ms";
+                if (p.auth == '2') return std::string("feat zp2") + "0" + (p.sm ? "1" : "0");
+                if (p.auth == 'b') return std::string("feat zp00") + "0";
+            }
+            bool bindDone = bind2Now;
+            return std::string("feat") + (bindDone ? "" : " b1") + (p.sm ? " s1" : "") + (p.csi ? " c1" : "");
+        }
+        auto starts = [&](const char *s) { return lastKind.rfind(s, 0) == 0; };
+        auto has = [&](const char *s) { return lastKind.find(s) != std::string::npos; };
+        if (starts("StartTls")) { tlsDone = true; return "proceed 1"; }
+        if (starts("SaslAuth:scram")) return "challenge 1";
+        if (starts("SaslAuth") || starts("SaslResponse")) { authed = true; return "success"; }
+        if (starts("Sasl2Auth")) {
+            authed = true;
+            int b = has("+bind2") ? (has("+sm") && p.sm ? (p.sm == 2 ? 2 : 3) : 1) : 0;
+            int r = has("+resume") ? (p.resumeOk ? 1 : 2) : 0;
+            if (r == 1) b = 0;   // a resumed stream is not bound again
+            bind2Now = b != 0;
+            if (b == 2) resumableNow = true;
+            if (r == 1) { resumableNow = true; done = true; }
+            else needFeatures = true;
+            return "success2 " + std::to_string(b) + " " + std::to_string(r) + " 0";
+        }
+        if (starts("Bind")) return "bindres ok";
+        if (starts("SmEnable")) { resumableNow = p.sm == 2; return p.sm == 2 ? "smenabled 1" : "smenabled 0"; }
+        if (starts("SmResume")) { if (p.resumeOk) resumableNow = true; return p.resumeOk ? "smresumed" : "smfailed"; }
+        if (starts("NonSaslQuery")) return "fields 1 1";
+        if (starts("NonSaslAuth")) { authed = true; return "authres 1"; }
+        return "";
+    }
+};
+
+static std::vector<Policy> policies()
+{
+    std::vector<Policy> v;
+    auto add = [&](const char *n, bool tls, char a, int sm, bool rok, bool csi, int red) { Policy p; p.name = n; p.tls = tls; p.auth = a; p.sm = sm; p.resumeOk = rok; p.csi = csi; p.redirectAt = red; v.push_back(p); };
+    add("sasl-bind", false, 'p', 0, true, false, -1);
+    add("tls-sasl-bind", true, 'p', 0, true, true, -1);
+    add("scram-bind-sm", false, 's', 1, true, false, -1);
+    add("sasl-bind-smr", false, 'p', 2, true, true, -1);
+    add("sasl-bind-smr-noresume", false, 'p', 2, false, false, -1);
+    add("sasl2-bind2-smr", false, '2', 2, true, true, -1);
+    add("tls-sasl2-bind2", true, '2', 0, true, true, -1);
+    add("sasl2-bind2-smr-noresume", false, '2', 2, false, false, -1);
+    add("sasl2-classicbind", false, 'b', 1, true, false, -1);
+    add("legacy", false, 'l', 0, true, false, -1);
+    add("redirect-first", false, 'p', 0, true, false, 0);
+    add("redirect-in-session", false, 'p', 0, true, false, 5);
+    add("redirect-in-session-smr", false, 'p', 2, true, false, 6);
+    return v;
+}
+
+// last element the client sent that a server answers (skips <r/> and the stanzas sent at session start)
+static std::string lastRequest(World &w, size_t from)
+{
+    std::string k;
+    for (size_t i = from; i < w.sent.size(); i++) {
+        const std::string &x = w.sent[i].kind;
+        if (x == "SmReq" || x == "Presence" || x.rfind("IqRequest", 0) == 0 || x.rfind("Csi", 0) == 0 || x == "StreamClose" || x.rfind("IqReply", 0) == 0) continue;
+        k = x;
+    }
+    return k;
+}
+
+// ---- C10: one connection attempt driven by a conforming server, cut after `cut` server elements (cut < 0: never)
+struct AttemptResult { bool reachedDone = false, connectedSeen = false, cutDone = false; int said = 0; };
+
+static AttemptResult runAttempt(Session &s, const Policy &p, int cut, bool sendIqWhenUp, bool &resumable)
+{
+    World &w = s.r.w;
+    AttemptResult res;
+    Conforming srv; srv.p = p;
+    int connectedBefore = w.connectedSignals;
+    size_t sentFrom = w.sent.size();
+    s.op("connect");
+    bool newStream = true;
+    size_t bind2Idx = w.sessionBind2Used.size();
+    for (int guard = 0; guard < 40; guard++) {
+        if (cut >= 0 && srv.said >= cut) break;
+        std::string last = lastRequest(w, sentFrom);
+        sentFrom = w.sent.size();
+        // a new stream begins whenever the client sent a stream open
+        std::string o = srv.next(last, newStream || last == "StreamOpen");
+        newStream = false;
+        if (o.empty()) { res.reachedDone = true; break; }
+        bool wasRedirect = o == "redirect";
+        srv.said++;
+        s.op(o);
+        if (wasRedirect) { srv.tlsDone = false; srv.authed = false; srv.bind2Now = false; srv.needFeatures = false; newStream = true; sentFrom = w.sent.size(); }
+        // oracle: nothing may be reported as an established session while the server still has something to say
+        bool more = true;
+        {
+            Conforming probe = srv;
+            std::string l2 = lastRequest(w, sentFrom);
+            more = !probe.next(l2, newStream || l2 == "StreamOpen").empty();
+        }
+        if (more && (w.client->isConnected() || w.client->state() == QXmppClient::ConnectedState))
+            fail(std::string("C10:session-reported-during-negotiation") + (wasRedirect || srv.redirected ? ":after-redirect" : ""), s.replay());
+        else oraclePass()++;
+        if (w.connectedThisConn > 1) fail("C10:connected-twice-on-one-connection", s.replay());
+    }
+    res.said = srv.said;
+    res.connectedSeen = w.connectedSignals > connectedBefore;
+    if (res.reachedDone) {
+        resumable = srv.resumableNow;
+        if (!(res.connectedSeen && w.client->isConnected() && w.client->state() == QXmppClient::ConnectedState))
+            fail("C10:conforming-script-does-not-connect:" + p.name, s.replay());
+        else oraclePass()++;
+        // SessionBegin must describe THIS connection
+        if (w.sessionBind2Used.size() > bind2Idx) {
+            bool reported = w.sessionBind2Used.back() == 1;
+            if (reported != srv.bind2Now) fail("C10:session-begin-bind2-flag-stale", s.replay());
+            else oraclePass()++;
+        }
+        if (sendIqWhenUp && w.client->isConnected()) s.op("sendiq");
+    } else if (res.connectedSeen && !(p.redirectAt >= 0 && srv.redirected)) {
+        fail("C10:connected-before-negotiation-finished", s.replay());
+    }
+    return res;
+}
+
+static void cutAndCheck(Session &s, bool resumable)
+{
+    World &w = s.r.w;
+    int outstandingBefore = w.iqStarted - w.iqFinished;
+    int disconnectedBefore = w.disconnectedSignals;
+    bool wasUp = w.client->strm()->socket()->state() == QAbstractSocket::ConnectedState;
+    s.op("drop");
+    bool ok = true;
+    if (w.client->state() != QXmppClient::DisconnectedState || w.client->isConnected() || w.client->isAuthenticated()) { fail("C10:not-disconnected-after-cut", s.replay()); ok = false; }
+    if (wasUp && w.disconnectedSignals != disconnectedBefore + 1) { fail("C10:disconnected-signal-count-after-cut", s.replay()); ok = false; }
+    int outstanding = w.iqStarted - w.iqFinished;
+    if (!resumable && outstanding != 0) { fail("C10:request-neither-completed-nor-resumable", s.replay()); ok = false; }
+    if (resumable && outstanding != outstandingBefore) stat("c10:resumable-but-completed");
+    if (ok) oraclePass()++;
+}
+
+static void exploreC10(Runner &r, Rng &rng, bool thorough)
+{
+    auto pols = policies();
+    std::vector<Cfg> cfgs;
+    { Cfg c; c.tls = 1; c.plainOk = true; cfgs.push_back(c); }
+    { Cfg c; c.tls = 1; c.plainOk = true; c.inactive = true; cfgs.push_back(c); }
+    { Cfg c; c.tls = 0; c.plainOk = true; c.sasl2 = false; cfgs.push_back(c); }
+    // (1) every policy x every cut point, then a full attempt with the same policy
+    for (size_t ci = 0; ci < cfgs.size(); ci++)
+        for (auto &p : pols) {
+            if (ci == 2 && (p.tls || p.auth == '2' || p.auth == 'b')) continue;
+            for (int cut = 0; cut < 14; cut++) {
+                Session s(r, cfgs[ci]);
+                bool resumable = false;
+                auto a1 = runAttempt(s, p, cut, true, resumable);
+                bool lastCut = a1.reachedDone;   // the script was shorter than the cut: this is the cut of an established session
+                cutAndCheck(s, a1.reachedDone ? resumable : false);
+                bool r2 = false;
+                auto a2 = runAttempt(s, p, -1, false, r2);
+                (void)a2;
+                if (p.auth != 'l' && !r2 && (s.r.w.iqStarted - s.r.w.iqFinished) != 0 && a2.reachedDone) fail("C10:request-outlives-new-session", s.replay());
+                stat("c10:runs");
+                if (lastCut) break;
+            }
+        }
+    // (2) two different policies in a row, every cut of the first; (3) three attempts (seeded sample)
+    int pairs = 0;
+    for (auto &p1 : pols)
+        for (auto &p2 : pols) {
+            if (!thorough && rng.below(4) != 0) continue;
+            for (int cut = 0; cut < 14; cut++) {
+                if (!thorough && rng.below(3) != 0 && cut > 1) continue;
+                Session s(r, cfgs[rng.below(2)]);
+                bool resumable = false;
+                auto a1 = runAttempt(s, p1, cut, rng.coin(), resumable);
+                cutAndCheck(s, a1.reachedDone ? resumable : false);
+                bool r2 = false;
+                auto a2 = runAttempt(s, p2, -1, false, r2);
+                if (rng.coin()) {
+                    cutAndCheck(s, a2.reachedDone ? r2 : false);
+                    bool r3 = false;
+                    runAttempt(s, pols[rng.below(uint32_t(pols.size()))], -1, false, r3);
+                }
+                pairs++;
+                stat("c10:runs");
+                if (a1.reachedDone) break;
+            }
+        }
+    stat("c10:pair-runs", pairs);
+}
+
+// ---- C04: exhaustive short scripts over a reduced alphabet + seeded random longer ones
+static const std::vector<std::string> &alphabetSmall()
+{
+    static const std::vector<std::string> a = {
+        "hdr 1 1", "hdr 0 1", "feat t1 mp a1 b1", "feat t0 mp a1", "proceed 1", "proceed 0", "fields 1 1", "iqget version",
+        "iqget unknown", "success", "feat t0 zp200", "bindres ok", "redirect", "message",
+    };
+    return a;
+}
+static const std::vector<std::string> &alphabetFull()
+{
+    static const std::vector<std::string> a = {
+        "hdr 1 1", "hdr 0 1", "hdr 1 0", "hdr 0 0",
+        "feat t1 mp a1 b1", "feat t2 ms", "feat t0 mp a1", "feat t0 ms", "feat t0 mu", "feat t0 a1", "feat t0 b1 s1 c1", "feat t0 b1", "feat t0 s1", "feat t0", "feat t1",
+        "feat t0 zp200", "feat t0 zs011", "feat t0 zp111 mp", "feat t0 zu000", "feat t1 zp200",
+        "proceed 1", "proceed 0", "tlsfailure", "success", "failure", "challenge 1", "challenge 0",
+        "success2 0 0 0", "success2 1 0 0", "success2 2 0 1", "success2 3 0 0", "success2 0 1 0", "success2 0 2 0", "success2 2 1 1", "failure2", "challenge2 1", "challenge2 0", "continue2",
+        "fields 1 1", "fields 1 0", "fields 0 1", "fields 0 0", "authres 1", "authres 0",
+        "bindres ok", "bindres nojid", "bindres err", "bindres wrongid", "smenabled 1", "smenabled 0", "smfailed", "smresumed",
+        "iqget version", "iqget disco", "iqget unknown", "iqset", "iqresult pending", "iqresult stray", "message", "presence sub", "presence avail",
+        "streamerror", "redirect", "close", "drop", "sendiq", "connect",
+    };
+    return a;
+}
+
+static void tlsUnavailableOracle(Session &s, const std::string &op, bool headerOnConn)
+{
+    // property text: "if encryption cannot be negotiated it gives up and disconnects"
+    World &w = s.r.w;
+    if (s.cfg.tls != 2 || op.rfind("feat t0", 0) != 0 || !headerOnConn) return;
+    auto c = w.conn();
+    if (!c || c->tlsDone) return;
+    if (w.client->state() != QXmppClient::DisconnectedState || !c->closed) fail("C04:tls-unavailable-but-not-disconnected", s.replay());
+    else oraclePass()++;
+}
+
+static void runC04Script(Runner &r, const Cfg &cfg, const std::vector<std::string> &script)
+{
+    Session s(r, cfg);
+    s.op("connect");
+    bool headerOnConn = false;
+    int connSeq = r.w.connSeq;
+    for (auto &o : script) {
+        auto c = r.w.conn();
+        bool open = c && !c->closed && !c->tlsDone;
+        bool pre = headerOnConn && open;
+        s.op(o);
+        if (r.w.connSeq != connSeq) { connSeq = r.w.connSeq; headerOnConn = false; }
+        else if (c && c->tlsDone && !open) { }
+        if (pre) tlsUnavailableOracle(s, o, true);
+        if (o.rfind("hdr", 0) == 0 && open) headerOnConn = true;
+        if (o.rfind("proceed 1", 0) == 0) headerOnConn = false;
+    }
+    oracleC04(s);
+    if (samplesLeft() > 0) sample(s.replay());
+}
+
+static void exploreC04(Runner &r, Rng &rng, bool thorough)
+{
+    std::vector<Cfg> cfgs;
+    { Cfg c; c.tls = 2; cfgs.push_back(c); }                       // defaults + TLS required
+    { Cfg c; c.tls = 2; c.nonsasl = false; c.plainOk = true; cfgs.push_back(c); }
+    { Cfg c; c.tls = 1; c.plainOk = true; cfgs.push_back(c); }
+    { Cfg c; c.tls = 0; c.plainOk = true; c.nsPlain = true; cfgs.push_back(c); }
+    const auto &A = alphabetSmall();
+    const int depth = thorough ? 4 : 3;
+    // corpus: the two defect witnesses and the plain successful paths first
+    runC04Script(r, cfgs[0], { "hdr 0 1", "fields 1 1" });
+    runC04Script(r, cfgs[0], { "hdr 1 1", "iqget version" });
+    runC04Script(r, cfgs[0], { "hdr 1 1", "feat t0 mp a1" });
+    runC04Script(r, cfgs[1], { "hdr 1 1", "feat t1 mp a1 b1", "proceed 1", "hdr 1 1", "feat t0 mp a1", "success", "hdr 1 1", "feat t0 b1", "bindres ok" });
+    for (size_t ci = 0; ci < cfgs.size(); ci++) {
+        int d = (ci == 0) ? depth : (ci == 1 ? depth : depth - 1);
+        std::vector<int> idx;
+        std::function<void()> rec = [&]() {
+            if (!idx.empty()) {
+                std::vector<std::string> sc;
+                for (int i : idx) sc.push_back(A[size_t(i)]);
+                runC04Script(r, cfgs[ci], sc);
+            }
+            if (int(idx.size()) == d) return;
+            for (int i = 0; i < int(A.size()); i++) { idx.push_back(i); rec(); idx.pop_back(); }
+        };
+        // only maximal-length scripts need to be run separately when shorter ones are their prefixes? No: the oracle is
+        // evaluated at the end of each script, but every prefix is observed line by line as well; run all lengths for the counts.
+        rec();
+        stat("c04:exhaustive-depth-cfg" + std::to_string(ci), d);
+    }
+    // random: a conforming server that is derailed with probability 1/3 per step
+    const auto &F = alphabetFull();
+    auto pols = policies();
+    int nRandom = thorough ? 6000 : 700;
+    for (int n = 0; n < nRandom; n++) {
+        Cfg c;
+        c.tls = int(rng.below(3)); if (rng.below(3) == 0) c.tls = 2;
+        c.sasl2 = rng.below(4) != 0; c.sasl = rng.below(4) != 0; c.nonsasl = rng.below(3) != 0;
+        c.plainOk = rng.coin(); c.nsPlain = rng.coin(); c.inactive = rng.below(4) == 0;
+        int tk = int(rng.below(4)); c.token = tk == 3 ? 0 : tk;
+        Session s(r, c);
+        s.op("connect");
+        Conforming srv; srv.p = pols[rng.below(uint32_t(pols.size()))];
+        srv.p.tls = srv.p.tls || c.tls == 2 || rng.coin();
+        size_t sentFrom = 0;
+        bool newStream = true;
+        int len = 3 + int(rng.below(10));
+        for (int k = 0; k < len; k++) {
+            std::string last = lastRequest(r.w, sentFrom);
+            sentFrom = r.w.sent.size();
+            std::string o;
+            if (rng.below(3) != 0) o = srv.next(last, newStream || last == "StreamOpen");
+            newStream = false;
+            if (o.empty()) o = F[rng.below(uint32_t(F.size()))];
+            if (o == "connect" && r.w.client->strm()->socket()->state() != QAbstractSocket::UnconnectedState && rng.below(4) != 0) o = "drop";
+            s.op(o);
+            if (o == "redirect" || o == "connect") { srv.tlsDone = srv.authed = srv.bind2Now = false; newStream = true; }
+        }
+        oracleC04(s);
+        stat("c04:random-scripts");
+    }
+}
+
 int main(int argc, char **argv)
 {
     QCoreApplication app(argc, argv);
@@ -684,7 +1127,18 @@ int main(int argc, char **argv)
     }
     setupTls();
     if (!script.empty()) return runManual(cfgStr, script);
-    printf("S tls_available %d\n", g_tlsOk ? 1 : 0);
+    const bool thorough = args.tier == "thorough";
+    Rng rng(args.seed);
+    Runner r;
+    QElapsedTimer t; t.start();
+    if (!g_tlsOk) printf("X TLS could not be brought up in this sandbox: only the pre-TLS part is covered\n");
+    if (mode == "c04" || mode == "both") exploreC04(r, rng, thorough);
+    if (mode == "c10" || mode == "both") exploreC10(r, rng, thorough);
+    stat("tls_available", g_tlsOk ? 1 : 0);
+    stat("scripts", g_scripts);
+    stat("ops", g_ops);
+    stat("settle_timeouts", r.w.settleTimeouts);
+    stat("wall_ms", t.elapsed());
     finish();
     return 0;
 }
